@@ -10,6 +10,8 @@ What is extracted (every run, from the working tree):
   * the instruction sequences of the generated property accessors (the `template` string is
     parsed as Python): getter = acquire, read, release; setter = acquire, write, release;
     from them the program of `with v.get_lock(): v.value += 1`
+  * the effect sequences of _new_value and rebuild_ctype (where the ForkingPickler reducer of a ctypes
+    type is registered: this decides whether a process that only received an object can hand it on)
   * facts checked structurally and emitted as booleans: _new_value allocates sizeof(type_)
     bytes through heap.BufferWrapper; BufferWrapper keeps (block, size), frees the block in its
     finaliser and views [start, start+size); reduce_ctype/rebuild_ctype pass the wrapper itself;
@@ -98,6 +100,69 @@ def with_prog(fn, kind):
     return ['Acq', 'Read' if kind == 'get' else 'Write', 'Rel']
 
 
+REGISTER = 'ForkingPickler.register(type_, reduce_ctype)'
+
+
+def new_value_effects(fn):
+    """_new_value(type_):
+         size = ctypes.sizeof(type_); wrapper = heap.BufferWrapper(size)   -> NAlloc
+         ForkingPickler.register(type_, reduce_ctype)                      -> NRegister
+         return rebuild_ctype(type_, wrapper, None)                        -> NRebuild
+    allocation first, the rebuild last, nothing else"""
+    require([a.arg for a in fn.args.args] == ['type_'], '_new_value signature changed')
+    txt = [ast.unparse(s) for s in body_no_doc(fn)]
+    out = []
+    i = 0
+    while i < len(txt):
+        if txt[i] == 'size = ctypes.sizeof(type_)' and i + 1 < len(txt) and txt[i + 1] == 'wrapper = heap.BufferWrapper(size)':
+            out.append('NAlloc')
+            i += 2
+        elif txt[i] == REGISTER:
+            out.append('NRegister')
+            i += 1
+        elif txt[i] == 'return rebuild_ctype(type_, wrapper, None)' and i == len(txt) - 1:
+            out.append('NRebuild')
+            i += 1
+        else:
+            raise TranslateError('%s: _new_value: statement outside the modelled effects: `%s`' % (F, txt[i]))
+    require(out and out[0] == 'NAlloc' and out[-1] == 'NRebuild' and out.count('NAlloc') == 1,
+            '_new_value does not allocate sizeof(type_) through BufferWrapper first and rebuild over it last: %r' % out)
+    return out
+
+
+def rebuild_effects(fn):
+    """rebuild_ctype(type_, wrapper, length):
+         if length is not None: type_ = type_ * length                     -> RArrayType
+         ForkingPickler.register(type_, reduce_ctype)                      -> RRegister
+         if PY3: buf = wrapper.create_memoryview(); obj = type_.from_buffer(buf)
+         else: obj = type_.from_address(wrapper.get_address())
+         obj._wrapper = wrapper; return obj                                -> RAttach (last)"""
+    require([a.arg for a in fn.args.args] == ['type_', 'wrapper', 'length'], 'rebuild_ctype signature changed')
+    body = body_no_doc(fn)
+    out = []
+    i = 0
+    while i < len(body):
+        st = body[i]
+        txt = ast.unparse(st)
+        if isinstance(st, ast.If) and ast.unparse(st.test) == 'length is not None' and not st.orelse \
+                and [ast.unparse(x) for x in st.body] == ['type_ = type_ * length']:
+            out.append('RArrayType')
+            i += 1
+        elif txt == REGISTER:
+            out.append('RRegister')
+            i += 1
+        elif isinstance(st, ast.If) and ast.unparse(st.test) == 'PY3' and i == len(body) - 3 \
+                and [ast.unparse(x) for x in st.body] == ['buf = wrapper.create_memoryview()', 'obj = type_.from_buffer(buf)'] \
+                and [ast.unparse(x) for x in st.orelse] == ['obj = type_.from_address(wrapper.get_address())'] \
+                and [ast.unparse(x) for x in body[i + 1:]] == ['obj._wrapper = wrapper', 'return obj']:
+            out.append('RAttach')
+            i += 3
+        else:
+            raise TranslateError('%s: rebuild_ctype: statement outside the modelled effects: `%s`' % (F, txt.split('\n')[0]))
+    require(out and out[-1] == 'RAttach', 'rebuild_ctype no longer ends in attaching the object to the wrapper memory')
+    return out
+
+
 def require(cond, msg):
     if not cond:
         raise TranslateError('%s: %s' % (F, msg))
@@ -117,10 +182,11 @@ def gen_sharedmem(repo):
             'RawArray is no longer one `if isinstance(size_or_initializer, int)`')
     arr_n = effects(ra[0].body, 'RawArray(int)')
     arr_init = effects(ra[0].orelse, 'RawArray(initializer)')
-    nv = [ast.unparse(s) for s in body_no_doc(find('_new_value'))]
-    require(nv == ['size = ctypes.sizeof(type_)', 'wrapper = heap.BufferWrapper(size)',
-                   'return rebuild_ctype(type_, wrapper, None)'],
-            '_new_value changed: %r' % nv)
+    new_value = new_value_effects(find('_new_value'))
+    rebuild = rebuild_effects(find('rebuild_ctype'))
+    imports = [ast.unparse(s) for s in tree.body if isinstance(s, ast.ImportFrom)]
+    require('from .reduction import ForkingPickler' in imports,
+            'ForkingPickler is no longer billiard.reduction.ForkingPickler')
     for fn, raw in (('Value', 'obj = RawValue(typecode_or_type, *args)'),
                     ('Array', 'obj = RawArray(typecode_or_type, size_or_initializer)')):
         txt = [ast.unparse(s) for s in ast.walk(find(fn)) if isinstance(s, ast.Assign)]
@@ -196,8 +262,13 @@ def gen_sharedmem(repo):
     return '''(* GENERATED by translate/kernels/sharedmem.py (G_sharedmem) from billiard/sharedctypes.py
    and billiard/heap.py (BufferWrapper) -- do not edit *)
 From Coq Require Import List.
-From BV Require Import Model.SharedMem.
+From BV Require Import Model.SharedMem Model.SharedHop.
 Import ListNotations.
+
+(* _new_value(type_) *)
+Definition new_value_prog : list neffect := %s.
+(* rebuild_ctype(type_, wrapper, length) *)
+Definition rebuild_prog : list reffect := %s.
 
 (* RawValue(typecode_or_type, args) *)
 Definition rawvalue_prog : list ceffect := %s.
@@ -229,7 +300,7 @@ Definition value_and_array_hand_lock_and_ctx_to_synchronized : bool := true.
    exactly `Wrapper(obj, lock, ctx)` *)
 Definition synchronized_branches : nat := %d.
 Definition synchronized_branches_passing_lock_and_ctx : nat := %d.
-''' % (cl(rawvalue), cl(arr_n), cl(arr_init), cl(getter), cl(setter), cl(item_get), cl(item_set), n_ret, n_pass)
+''' % (cl(new_value), cl(rebuild), cl(rawvalue), cl(arr_n), cl(arr_init), cl(getter), cl(setter), cl(item_get), cl(item_set), n_ret, n_pass)
 
 
 def _one_assign(tree, name):
